@@ -175,6 +175,77 @@ def _consumer_kind_of(prog, fn, k, stack):
     return res
 
 
+_owning = set()
+
+
+def owning_fields(prog):
+    """Field names f such that some function releases `x->...->f` (or an element of it): objects stored there are owned by the holder."""
+    if _owning:
+        return _owning
+    for fn in prog.all_functions():
+        for b, i, n in fn.calls():
+            nm = n.get("fn")
+            indirect = False
+            if not nm and isinstance(n.get("f"), dict) and strip(n["f"]).get("k") == "mem":
+                tg = field_targets(prog).get(strip(n["f"])["f"], set())
+                indirect = bool(tg) and all(is_release(t) for t in tg)
+            if not (is_release(nm) or indirect) or not n["a"]:
+                continue
+            a = fn.resolve(strip(n["a"][0]))
+            while isinstance(a, dict) and a.get("k") in ("cast", "idx"):
+                a = fn.resolve(strip(a["e"] if a["k"] == "cast" else a["b"]))
+            if isinstance(a, dict) and a.get("k") == "mem":
+                _owning.add(a["f"])
+            elif isinstance(a, dict) and a.get("k") == "var" and a.get("s") == "local":
+                # a local copy of a field:  p = x->f; ...; free(p)
+                for d in fn.defs_at(b, i, a["n"]):
+                    if d[0] == "param":
+                        continue
+                    v, kind, node = fn.def_info(d)
+                    rhs = node.get("r") if kind == "asg" else (node.get("init") if kind == "init" else None)
+                    rhs = fn.resolve(strip(rhs)) if rhs is not None else None
+                    while isinstance(rhs, dict) and rhs.get("k") == "cast":
+                        rhs = fn.resolve(strip(rhs["e"]))
+                    if isinstance(rhs, dict) and rhs.get("k") == "mem":
+                        _owning.add(rhs["f"])
+    _owning.add("__done__")
+    return _owning
+
+
+_cfields = {}
+
+
+def consume_fields(prog, name, k, stack=()):
+    """Names of the fields into which function `name` (transitively) stores its parameter k."""
+    key = (name, k)
+    if key in _cfields:
+        return _cfields[key]
+    out = set()
+    if key in stack or len(stack) > 6:
+        return out
+    for fn in prog.functions.get(name, []):
+        if k >= len(fn.params):
+            continue
+        pn = fn.params[k]["n"]
+        for b, i, n in fn.nodes():
+            if n.get("k") == "asg":
+                r = fn.resolve(strip(n["r"]))
+                while isinstance(r, dict) and r.get("k") == "cast":
+                    r = fn.resolve(strip(r["e"]))
+                if is_var(r, pn):
+                    l = strip(n["l"])
+                    while isinstance(l, dict) and l.get("k") == "idx":
+                        l = strip(l["b"])
+                    if isinstance(l, dict) and l.get("k") == "mem":
+                        out.add(l["f"])
+            elif n.get("k") == "call" and n.get("fn"):
+                for j, a in enumerate(n["a"]):
+                    if passes_var(fn, a, pn):
+                        out |= consume_fields(prog, n["fn"], j, stack + (key,))
+    _cfields[key] = out
+    return out
+
+
 # ------------------------------------------------------------------------ producers
 _prod_cache = {}
 
@@ -388,6 +459,10 @@ def _events(prog, fn, el, v, sv, assigned=()):
                         ev.append(("release", name or ("(*%s)" % strip(n["f"])["f"]), n.get("ln")))
                     elif call_consumer_kind(prog, fn, n, j) != "borrow":
                         ev.append(("use", name))
+                        if name and call_consumer_kind(prog, fn, n, j) == "consume" and any(n is c for c in assigned) and \
+                                not re.search(r"List_(append|insertAt|replaceAt)$", name) and \
+                                (consume_fields(prog, name, j) & owning_fields(prog)):
+                            ev.append(("given", name, n.get("ln")))
                 elif passes_var(fn, a0, v):
                     if call_consumer_kind(prog, fn, n, j) != "borrow":
                         ev.append(("use", name))
@@ -431,6 +506,10 @@ def _events(prog, fn, el, v, sv, assigned=()):
                     pass        # back-pointer stored inside the object itself (o->cb.ctx = o)
                 elif bv is not None and bv.get("s") == "local" and "*" not in bv.get("t", "*") and "->" not in (lvalue_key(l, fn) or "->"):
                     pass        # stored into a field of a local aggregate (context.signature = clone): stays in this function
+                elif bv is not None and bv.get("s") == "local" and l.get("k") == "mem" and l["f"] not in owning_fields(prog):
+                    # a plain reference kept in a local object whose destructor does not release it (handle->leafNode = node):
+                    # ownership stays with v
+                    ev.append(("fieldstore", lvalue_key(l, fn)))
                 else:
                     ev.append(("fieldstore", lvalue_key(l, fn)))
                     ev.append(("transfer",))
@@ -506,6 +585,7 @@ def _analyse_var(prog, fn, v, sv, rets):
                     errarm = True
                 states = [(s, vs, acq, used)]
                 acq_ev = None
+                given_ev = None
                 for x in evs[bid][i]:
                     new_states = []
                     for (s1, vs1, acq1, used1) in states:
@@ -535,6 +615,9 @@ def _analyse_var(prog, fn, v, sv, rets):
                             new_states.append((s1, T if vs1 in (O, M, T) else vs1, acq1, used1))
                         elif x[0] == "use":
                             new_states.append((s1, vs1, acq1, True))
+                        elif x[0] == "given":
+                            given_ev = x
+                            new_states.append((s1, vs1, acq1, used1))
                         elif x[0] == "release":
                             if vs1 == F:
                                 f = ("double", x[1], x[2])
@@ -552,6 +635,14 @@ def _analyse_var(prog, fn, v, sv, rets):
                                     findings.append(Finding("alias-release", fn, v, "%s(%s) releases the memory that %s still points to (%s was "
                                                             "copied from that field and the field is not reassigned on this path)"
                                                             % (x[1], v, vs1[1], v), x[2], vs1[1]))
+                                new_states.append((s1, F, acq1, used1))
+                            elif isinstance(vs1, tuple) and vs1[0] == "G":
+                                f = ("after-handover", x[1], x[2])
+                                if f not in reported:
+                                    reported.add(f)
+                                    findings.append(Finding("release-after-handover", fn, v, "%s(%s) on a path where %s succeeded and keeps %s "
+                                                            "(it stores the pointer into an object that releases it), and %s was not set to NULL "
+                                                            "in between: the object is released twice" % (x[1], v, vs1[1], v, v), x[2], acq1))
                                 new_states.append((s1, F, acq1, used1))
                             elif vs1 == T:
                                 f = ("after-transfer", x[1], x[2])
@@ -583,6 +674,15 @@ def _analyse_var(prog, fn, v, sv, rets):
                                 nxt.add((s2, O if vs1 in (N, M, F, T, O) else U, acq1[2], False, ea2))
                             else:
                                 nxt.add((s2, vs1, acq1[1], used1, ea2))
+                        elif given_ev is not None and eff is not None and s2 == OKS and vs1 == O:
+                            nxt.add((s2, ("G", given_ev[1]), acq1, used1, ea2))
+                        elif given_ev is not None and eff is None and vs1 == O:
+                            nxt.add((s2, ("GP", given_ev[1]), acq1, used1, ea2))      # status assigned by the next element
+                        elif isinstance(vs1, tuple) and vs1[0] == "GP":
+                            if eff is None:
+                                nxt.add((s2, O, acq1, used1, ea2))
+                            else:
+                                nxt.add((s2, ("G", vs1[1]) if s2 == OKS else O, acq1, used1, ea2))
                         else:
                             nxt.add((s2, vs1, acq1, used1, ea2))
             cur = nxt
@@ -844,3 +944,203 @@ def unchecked_allocations(prog, fn):
         if found:
             out.append((found[0], found[1], v, "%s (allocated by %s at line %s)" % (found[2], alloc, fn.elem_line(b0, i0)), found[3]))
     return out
+
+
+# ------------------------------------------------------------------------ parameters absorbed into an object that is released on error
+def _absorbing_fields(prog, callee, j, k, back=None):
+    """Fields f such that `callee` stores its parameter j into X->f where X is the object it hands out through
+    out-parameter k (tmp->rightChild = rightSibling; ...; *root = tmp).  Empty set when the shape is not recognised."""
+    fns = prog.functions.get(callee, [])
+    if len(fns) != 1:
+        return set()
+    fn = fns[0]
+    if j >= len(fn.params) or k >= len(fn.params):
+        return set()
+    pj, pk = fn.params[j]["n"], fn.params[k]["n"]
+    outs = set()
+    for b, i, n in fn.nodes():
+        if n.get("k") == "asg":
+            l = strip(n["l"])
+            if l.get("k") == "un" and l["op"] == "*" and is_var(l["e"], pk):
+                r = fn.resolve(strip(n["r"]))
+                if isinstance(r, dict) and r.get("k") == "var" and r.get("s") == "local":
+                    outs.add(r["n"])
+    if back is not None:
+        # back-pointers: pj->g = X
+        for b, i, n in fn.nodes():
+            if n.get("k") == "asg":
+                r = fn.resolve(strip(n["r"]))
+                lk = lvalue_key(n["l"], fn)
+                if isinstance(r, dict) and r.get("k") == "var" and r["n"] in outs and lk and lk.startswith(pj + "->") and "->" not in lk[len(pj) + 2:]:
+                    back.add(lk[len(pj) + 2:])
+    fields = set()
+    for b, i, n in fn.nodes():
+        if n.get("k") == "asg" and is_var(fn.resolve(strip(n["r"])), pj):
+            l = strip(n["l"])
+            if l.get("k") == "mem" and is_var(l.get("b") if "b" in l else l.get("e"), None):
+                base = strip(l.get("b") if "b" in l else l.get("e"))
+                if base.get("k") == "var" and base["n"] in outs:
+                    fields.add(l["f"])
+    return fields
+
+
+def absorbed_param_release(prog, fn, examined=None):
+    """`res = C(.., p, .., &r)` where p is a parameter of fn that C stores into the new object r (r->f = p), followed, on a
+    path that returns an error, by a release of r while r->f still holds p: the function destroys an object that its caller
+    still owns (callers release their argument when the call fails: `caller_releases`).
+    Returns [(call block, idx, param, local, callee, release name, release line, callers)]."""
+    sv = status_var(fn)
+    if sv is None:
+        return []
+    out = []
+    params = {p["n"]: p for p in fn.params if "*" in p["t"] and not p["t"].startswith("const ")}
+    for b, i, n in fn.calls():
+        callee = n.get("fn")
+        if not callee or n not in _status_assigned_calls(fn, b, i, sv):
+            continue
+        outs = []
+        for k, a in enumerate(n["a"]):
+            a0 = strip(a)
+            if isinstance(a0, dict) and a0.get("k") == "un" and a0["op"] == "&" and strip(a0["e"]).get("k") == "var" and \
+                    strip(a0["e"]).get("s") == "local" and producer_kind(prog, callee, k) == "own":
+                outs.append((k, strip(a0["e"])["n"]))
+        if not outs:
+            continue
+        for j, a in enumerate(n["a"]):
+            for pn in params:
+                if not passes_var(fn, a, pn):
+                    continue
+                for (k, r) in outs:
+                    back = set()
+                    fields = _absorbing_fields(prog, callee, j, k, back)
+                    if not fields:
+                        continue
+                    if examined is not None:
+                        examined.append((fn.name, callee, pn, r, sorted(fields)))
+                    hit = _release_while_absorbed(prog, fn, b, i, sv, r, fields, ["%s->%s" % (pn, g) for g in sorted(back)], pn)
+                    if hit is None:
+                        continue
+                    # only fields that the releasing function itself releases are owning (a back-pointer like x->ctx is not)
+                    fields = {f for f in fields if _releases_field(prog, hit[0], f)}
+                    if not fields:
+                        continue
+                    callers = caller_releases(prog, fn, [q["n"] for q in fn.params].index(pn))
+                    if callers:
+                        out.append((b, i, pn, r, callee, hit[0], hit[1], callers, sorted(fields)))
+    return out
+
+
+def _releases_field(prog, relname, field):
+    for f in prog.functions.get(relname, []):
+        if not f.params:
+            continue
+        p0 = f.params[0]["n"]
+        for b, i, n in f.calls():
+            if is_release(n.get("fn")) and n["a"] and lvalue_key(strip(n["a"][0]), f) == "%s->%s" % (p0, field):
+                return True
+    return False
+
+
+def _release_while_absorbed(prog, fn, b0, i0, sv, r, fields, aliases=(), pname=None):
+    """Explore CFG x status from the success edge of the call at (b0, i0): is a release of r reached in the error state while
+    none of r-><fields> has been reassigned and r itself has not been reassigned?  -> (release name, line) or None."""
+    live = frozenset(fields)
+    start = (b0, i0 + 1, OKS, live)
+    seen = {start}
+    work = [start]
+    # the element after the call may be `res = <ref>`: status effect handled by the generic step below
+    while work:
+        b, i, s, fl = work.pop()
+        elems = fn.blocks[b]["elems"]
+        dead = False
+        while i < len(elems):
+            el = elems[i]["e"]
+            for n in walk(el):
+                kd = n.get("k")
+                if kd == "asg":
+                    lk = lvalue_key(n["l"], fn)
+                    if lk == r:
+                        dead = True
+                    elif lk and lk.startswith(r + "->") and lk[len(r) + 2:] in fl:
+                        fl = fl - {lk[len(r) + 2:]}
+                    else:
+                        # the same object reached through the absorbed parameter's back-pointer (p->parent->f = NULL)
+                        for al in aliases:
+                            if lk and lk.startswith(al + "->") and lk[len(al) + 2:] in fl:
+                                fl = fl - {lk[len(al) + 2:]}
+                elif kd == "call":
+                    for a in n["a"]:
+                        a0 = strip(a)
+                        if isinstance(a0, dict) and a0.get("k") == "un" and a0["op"] == "&" and is_var(a0["e"], r):
+                            dead = True
+                        elif is_var(a0, r) and is_release(n.get("fn")) and s == ERR and fl and not dead:
+                            return (n["fn"], n.get("ln") or elems[i]["ln"])
+            if dead or not fl:
+                break
+            eff = _elem_status_effect(fn, el, sv)
+            if eff is not None and not (b == b0 and i == i0 + 1 and isinstance(el, dict) and el.get("k") == "asg" and
+                                        isinstance(el["r"], dict) and el["r"].get("k") == "ref"):
+                if len(eff) > 1:
+                    for s2 in eff:
+                        if s2 != s:
+                            st = (b, i + 1, s2, fl)
+                            if st not in seen:
+                                seen.add(st)
+                                work.append(st)
+                else:
+                    s = next(iter(eff))
+            i += 1
+        if dead or not fl:
+            continue
+        for e in fn.succ[b]:
+            if not _refine(fn, e, sv, s):
+                continue
+            fl2 = fl
+            for (op, l, r_) in edge_facts(fn, e):
+                kl, kr = lvalue_key(l, fn), lvalue_key(r_, fn)
+                for al in list(aliases) + [r]:
+                    for f in fl:
+                        if op == "!=" and {kl, kr} == {"%s->%s" % (al, f), pname}:
+                            fl2 = fl2 - {f}         # the field does not hold the parameter on this edge
+                if op == "==" and ((kl in aliases and (is_null(r_) or is_int(r_, 0))) or (kr in aliases and (is_null(l) or is_int(l, 0)))):
+                    fl2 = frozenset()               # back-pointer NULL: the parameter is not linked into r on this edge
+            if not fl2:
+                continue
+            st = (e.dst, 0, s, fl2)
+            if st not in seen:
+                seen.add(st)
+                work.append(st)
+    return None
+
+
+def caller_releases(prog, fn, k):
+    """Callers of fn that pass a local as argument k and release that local themselves (their error path keeps ownership)."""
+    out = []
+    for g in prog.all_functions():
+        for b, i, n in g.calls({fn.name}):
+            if k >= len(n["a"]):
+                continue
+            cands = []
+
+            def arms(a, depth=0):
+                a = g.resolve(strip(a))
+                while isinstance(a, dict) and a.get("k") == "cast":
+                    a = g.resolve(strip(a["e"]))
+                if isinstance(a, dict) and a.get("k") == "var" and a.get("s") in ("local", "param"):
+                    cands.append(a["n"])
+                elif isinstance(a, dict) and a.get("k") == "cond" and depth < 3:
+                    arms(a["a"], depth + 1)
+                    arms(a["b"], depth + 1)
+            arms(n["a"][k])
+            for x in cands:
+                if g is fn:
+                    continue
+                for b2, i2, m in g.calls():
+                    if is_release(m.get("fn")) and m["a"] and is_var(m["a"][0], x):
+                        out.append("%s releases %s (line %s)" % (g.name, x, m.get("ln")))
+                        break
+                else:
+                    # a parameter handed on: does *its* caller release it?
+                    if x in [p["n"] for p in g.params]:
+                        out += caller_releases(prog, g, [p["n"] for p in g.params].index(x))
+    return sorted(set(out))
